@@ -15,11 +15,20 @@ C17 line protocol.
   merge <k> then per variant: <allowed 0|1> <nUsed> keys… <nUnused> keys…
         key = hex(pkg)/hex(base)/line/hex(name)
         → reported keys in emission order, space separated, or `-`
+  gmerge <k> then per variant: <n> <ids> <uses> <owns>     (ids: n comma separated `path.pos`, 0 = none)
+        → `panic` when Go would panic (node without path and column, edge out of range), else
+          `ok=<variantOk of all> pc=<pathsConsistent> n=<N> ids=<…> uses=<…> owns=<…> col=<U/Q/X of nodes 1..N-1>
+           union=<positions reachable in the union of the use relations, ascending>`
+        the serialized graph after `Merge` of the variants in the given order (`Merge.lean`)
+  r65 <n> then n field lists (`-` or comma separated e | p | m<u>) then queries <st>.<u>
+        → `wf=0` | `wf=1 <0/1 per query>`: rule 6.5 (`hasExportedField`, `Rule65.lean`)
 -/
 import Verif.Common.Proto
 import Verif.C07.Driver
 import Verif.C17.Model
 import Verif.C17.Build
+import Verif.C17.Merge
+import Verif.C17.Rule65
 namespace Verif.C17
 open Verif.Proto Verif.C07
 
@@ -68,6 +77,42 @@ def parseEvent (t : String) : Option Event :=
     if t.startsWith "u" then some (.use a b) else if t.startsWith "s" then some (.see a b) else none
   | _ => none
 
+def parseIdent (s : String) : Option (Nat × Nat) :=
+  match s.splitOn "." with
+  | [a, b] => do let a ← a.toNat?; let b ← b.toNat?; pure (a, b)
+  | _ => none
+
+def mkMGraph (ids : List (Nat × Nat)) (g : Graph) : MGraph :=
+  (ids.zip g.nodes).map fun (i, nd) => ⟨i.1, i.2, nd.uses, nd.owns⟩
+
+def parseMVariants : Nat → List String → Option (List MGraph)
+  | 0, [] => some []
+  | 0, _ :: _ => none
+  | k + 1, n :: ids :: u :: o :: rest => do
+    let g ← parseGraph n u o
+    let ids ← (ids.splitOn ",").mapM parseIdent
+    if ids.length != g.N then none else
+    let vs ← parseMVariants k rest
+    pure (mkMGraph ids g :: vs)
+  | _ + 1, _ => none
+
+def showEdges (g : MGraph) (f : MNode → List Nat) : String :=
+  let es := g.zipIdx.flatMap fun (nd, i) => (f nd).map fun b => s!"{i}>{b}"
+  if es.isEmpty then "-" else ",".intercalate es
+
+def insertSorted (x : Nat) : List Nat → List Nat
+  | [] => [x]
+  | y :: ys => if x ≤ y then x :: y :: ys else y :: insertSorted x ys
+
+def parseFld (s : String) : Option Fld :=
+  if s = "e" then some .exp
+  else if s = "p" then some .plain
+  else if s.startsWith "m" then (s.drop 1).toString.toNat?.map .emb
+  else none
+
+def parseFlds (s : String) : Option (List Fld) :=
+  if s = "-" then some [] else (s.splitOn ",").mapM parseFld
+
 def stepLine (line : String) : String :=
   match tokens line with
   | "verdicts" :: _ => Verif.C07.step line
@@ -112,6 +157,28 @@ def stepLine (line : String) : String :=
       let g := s.graph
       if s.objs.isEmpty then "- -" else
       s!"{",".intercalate (s.objs.map toString)} {showVerdicts g}"
+    | none => "bad-op"
+  | "gmerge" :: k :: rest =>
+    match k.toNat? with
+    | some k =>
+      match parseMVariants k rest with
+      | some vs =>
+        if vs.isEmpty || !(vs.all fun v => identOk v && inRange v) then "panic" else
+        let g := mergeAll vs
+        let ids := ",".intercalate (g.map fun nd => s!"{nd.path}.{nd.pos}")
+        let un := (unionUsed vs).foldl (fun acc x => insertSorted x acc) []
+        s!"ok={showBool (vs.all variantOk)} pc={showBool (pathsConsistent vs)} n={g.length} ids={ids} uses={showEdges g (·.uses)} owns={showEdges g (·.owns)} col={showVerdicts g.graph} union={",".intercalate (un.map toString)}"
+      | none => "bad-op"
+    | none => "bad-op"
+  | "r65" :: n :: rest =>
+    match n.toNat? with
+    | some n =>
+      if rest.length < n then "bad-op" else
+      match (rest.take n).mapM parseFlds, (rest.drop n).mapM parseIdent with
+      | some T, some qs =>
+        if !(STab.wf T) || !(qs.all fun q => decide (q.1 < T.length) && decide (q.2 < T.length)) then "wf=0" else
+        "wf=1 " ++ String.ofList (qs.map fun q => if rule65 T q.1 q.2 then '1' else '0')
+      | _, _ => "bad-op"
     | none => "bad-op"
   | "merge" :: k :: rest =>
     match k.toNat? with
